@@ -271,6 +271,7 @@ type IfaceV struct {
 	Dyn  types.Type
 	V    Val
 	NonNil bool // unknown but known non-nil (e.g. fmt.Errorf result)
+	Sentinel string // "pkg.Name" when the value was loaded from a package-level sentinel error variable
 }
 
 type FuncV struct {
